@@ -30,7 +30,7 @@ Print Assumptions C12_selection_errors.
    well-formed and the scheduler theorems C02-C09, C14 apply to executor runs as they do to calls) *)
 Theorem C12_selection_subset (preds : nat -> list nat) nodes target exclude root g :
   make_subgraph preds nodes target exclude root = SelOk g -> forall x, In x g -> In x nodes.
-Proof. exact (make_subgraph_subset preds nodes target exclude root g). Qed.
+Proof. exact (make_subgraph_subset preds (fun _ => false) (fun _ => false) nodes target exclude root g). Qed.
 Print Assumptions C12_selection_subset.
 
 Theorem C12_selection_NoDup (preds : nat -> list nat) nodes target exclude root g :
